@@ -283,8 +283,12 @@ def _shaped(rng, values):
             if size % (rows * 2) == 0:
                 return values.reshape(rows, 2, size // (rows * 2))
         return values
-    if kind == 3:
-        return np.asfortranarray(values.reshape(1, size)).T if size else values
+    if kind == 3:  # genuinely Fortran-ordered 2-D (or a transposed view): F-contiguous and not C-contiguous
+        for rows in range(2, 9):
+            if size % rows == 0 and size // rows > 1:
+                c2d = values.reshape(rows, size // rows)
+                return np.asfortranarray(c2d) if rng.random() < 0.5 else np.ascontiguousarray(c2d.T).T
+        return values
     if kind == 4:
         return values[::-1].copy()[::-1]
     if kind == 5:
@@ -349,6 +353,8 @@ def run_case(run, tap, stream, index, rng):
                 else:
                     ce = _shaped(rng, east)
                     cn = np.asarray(north).reshape(np.shape(ce)) if not hasattr(ce, "index") else type(ce)(north, index=ce.index)
+                    if isinstance(ce, np.ndarray) and ce.ndim == 2 and not ce.flags.c_contiguous:
+                        run.count("class:inside_fortran_2d")
                 coords = (ce, cn) if rng.random() < 0.7 else (ce, cn, ce)
                 res = vd.inside(coords, region if rng.random() < 0.5 else tuple(region))
             run.sample("inside", {"region": region, "easting": np.asarray(ce), "northing": np.asarray(cn), "result": np.asarray(res)})
